@@ -116,7 +116,7 @@ CHECKS = {
     },
     "C18": {
         "explanation": "ExponentialRetry's closure with symbolic outcomes per call (success / plain / fatal nested <= 3) and cancellation during a symbolic call, <= 4 calls; calcExponentialRetry for every rate and counter; waitDuration.",
-        "quick": [seq("Harness_C18_retry_loop", timeout_ms=300000), seq("Harness_C18_backoff"), seq("Harness_C18_wait_duration")],
+        "quick": [seq("Harness_C18_retry_loop", timeout_ms=300000), seq("Harness_C18_backoff"), seq("Harness_C18_wait_duration", no_witness=True)],  # its witness waits natively for a real, arbitrary duration
         "thorough": [],
         "assumptions": ["rand.Int63n(n) returns any r with 0 <= r < n", "loop bounded to 4 calls; counter saturation covered by the backoff harness"],
         "no_native": ["Harness_C18_retry_loop", "Harness_C18_backoff"],
